@@ -537,6 +537,8 @@ fn run_session(rng: &mut Rng, si: u64, n_ops: u64, r: &mut Reports) {
             62 => Some(11),
             18 => Some(12),
             46 => Some(12),
+            28 => Some(13),
+            56 => Some(13),
             48 => Some(8),
             37 => Some(6),
             44 => Some(1),
@@ -561,6 +563,7 @@ fn run_session(rng: &mut Rng, si: u64, n_ops: u64, r: &mut Reports) {
                 10 => s.op_window_race(r),
                 11 => s.op_storm(r),
                 12 => s.op_submit_race(r),
+                13 => s.op_block_fault(r),
                 _ => s.op_pool_pressure(r),
             };
             if !ok {
@@ -2833,6 +2836,52 @@ impl Sess {
         }
         self.check_pool(&post, r);
         true
+    }
+
+
+    /// C12 / C13 (I/O fault, hook H2b): the database commit of a block import fails once. The
+    /// block is answered with an error, chain and pool stay where they were (the pool is judged by
+    /// the ordinary dump checks, the template must still be one for the old tip), then the same
+    /// block is delivered again and the tip change is judged as usual.
+    fn op_block_fault(&mut self, r: &mut Reports) -> bool {
+        let Some(pre) = self.quiesce() else { return false };
+        let (blocks, old_tip, depth) = self.build_blocks(&pre, 0, &[], true);
+        let b = std::sync::Arc::clone(&self.tg.rc.get(&blocks[0]).block);
+        let which = 1 + self.xrng.below(2);
+        ckb_db::verif::fail_write_at(ckb_db::verif::commit_count() + which);
+        let res = self.n.chain().blocking_process_block(std::sync::Arc::clone(&b));
+        ckb_db::verif::fail_write_at(0);
+        r.c12.count("ops.scenario_block_fault");
+        if res.is_err() {
+            r.c12.count("obs.block_fault.block_answered_with_an_error");
+            self.ops.push(format!("block #{} answered with an error (injected failure of database write {which} of its import)", b.number()));
+            r.c12.eval();
+            if self.n_tip() != old_tip {
+                r.c12.violation("block_fault.tip_moved_although_the_import_failed", format!("tip {} expected {}", hx(&self.n_tip()), hx(&old_tip)), self.witness(json!({})));
+                return false;
+            }
+            let Some(mid) = self.quiesce() else {
+                r.c12.inconclusive("watchdog: pool did not reach quiescence in 30 s after a failed block import");
+                return false;
+            };
+            self.check_pool(&mid, r);
+            // the template handed out now must still be acceptable (on the old tip)
+            if self.check_template(r, 0, false).is_none() {
+                return false;
+            }
+        } else {
+            // the armed write was not one of this import (nothing to judge about the fault)
+            r.c12.count("obs.block_fault.not_hit");
+            if !matches!(res, Ok(true)) {
+                return false;
+            }
+            return self.finish_block_op(&pre, old_tip, &blocks, depth, r);
+        }
+        // the same block again
+        if !self.deliver(&blocks, r) {
+            return false;
+        }
+        self.finish_block_op(&pre, old_tip, &blocks, depth, r)
     }
 
     /// C11: submissions until the pool's size limit evicts (or refuses) something; only in
